@@ -62,6 +62,17 @@ def run(ctx):
             t2.append({"cfg": {}, "ev": [e], "spec": [kind, n_, nc, True, [f, max(t, f + 1)] if kind != "cover" else None, seed, "dup"]})
         except Exception as ex:  # noqa
             ctx.violation("%s raised %s on a frame with repeated column labels: %s" % (kind, type(ex).__name__, ex), {"stage": "dup labels", "error": repr(ex), "replay": None})
+    # mixed-type frames (an integer-typed feature column, float columns, a text column): the injection aims at the INTEGER column - what comes back holds
+    # the injected values, not what fits the column's former type
+    for i in range(12 if q else 80):
+        kind = ("shift", "brownian", "swap")[i % 3]
+        n_, nc, seed = rng.randint(8, 40), rng.randint(3, 5), rng.randrange(10 ** 6)
+        f, t = sorted((rng.randint(0, n_ - 2), rng.randint(2, n_)))
+        try:
+            e = D.call(rng, kind, n_, nc, True, (f, max(t, f + 2)), seed, style="mixed", target=1)
+            t2.append({"cfg": {}, "ev": [e], "spec": [kind, n_, nc, True, [f, max(t, f + 2)], seed, "mixed"]})
+        except Exception as ex:  # noqa
+            ctx.violation("%s raised %s on a mixed-type frame: %s" % (kind, type(ex).__name__, ex), {"stage": "mixed frames", "error": repr(ex), "replay": None})
     ctx.validate("Injector", t2, "random larger data sets", sabotage=D.sabotage, replay=rep(t2),
                  nontrivial=lambda t: t["ev"][0]["out"] != t["ev"][0]["in"])
     # one injector OBJECT serving several calls with alternating containers and shapes (state must not leak between calls)
